@@ -10,7 +10,10 @@ package query
 //
 // Oracle signatures (suffix = what the same sender did earlier in the block):
 //   C08/query/prediction/TraceTx+predecessors/<class>   C08/query/prediction/TraceBlock/<class>
-//   class = after-core-error-predecessor | after-vm-failed-predecessor | after-successful-predecessors | first-of-sender
+//   class = after-core-error-predecessor | after-core-error-predecessor-of-any-sender-with-later-tx |
+//           after-vm-failed-predecessor | after-successful-predecessors | first-of-sender
+//   (the second: another sender's core-error transaction followed by an executed one of that sender precedes the traced
+//   transaction, so the replay has already lost an executed transaction; decided from the block prefix only)
 
 import (
 	"encoding/json"
@@ -139,8 +142,16 @@ func (w *world) stepSameSender(r *Rng) stepOut {
 	bclass := make([]string, len(plan))
 	consumed := map[int]uint64{}
 	skeletonOK := true
+	diverged := false // the replay of the block prefix has lost an executed transaction (behind a core-error one of its sender)
 	for i, x := range plan {
 		class[i] = []string{"first-of-sender", "after-successful-predecessors", "after-vm-failed-predecessor", "after-core-error-predecessor"}[worst[x.si]]
+		if worst[x.si] < 3 && diverged {
+			// Some OTHER sender has, earlier in the block, a transaction refused by the state transition followed by one
+			// the block executed: the replay skipped the first, answered "nonce too high" to the second and skipped it
+			// too, so the state this transaction is traced on already differs from the block's (known finding).
+			// Decided from the block prefix alone -- never from how the trace came out.
+			class[i] = "after-core-error-predecessor-of-any-sender-with-later-tx"
+		}
 		lvl := 1
 		switch {
 		case results[i].Code != 0 && len(results[i].Events) == 0:
@@ -154,6 +165,9 @@ func (w *world) stepSameSender(r *Rng) stepOut {
 		}
 		if lvl > 0 {
 			consumed[x.si]++
+		}
+		if results[i].Code == 0 && worst[x.si] == 3 {
+			diverged = true
 		}
 		if lvl > worst[x.si] {
 			worst[x.si] = lvl
